@@ -15,6 +15,8 @@ RULE = ("TLC enumerates every abstract document (per source and per tag one opti
         "values. distinct_nontrivial = cases in which some option is inherited.")
 FAMS = {
     "sources": dict(WNum="<- W4", WBm="<- W3", WBn="<- W3", WFm="<- W3", TagLists="<- NoTags"),
+    # three sources: three values per kind (absent / explicit zero / a value), the file-mode kind fixed
+    "sources3": dict(WNum="<- W3", WBm="<- W3", WBn="<- W3", WFm="<- W1", TagLists="<- NoTags"),
     "tags": dict(WNum="<- W1", WBm="<- W1", WBn="<- W1", WFm="<- W1", TagLists="<- Tags2"),
 }
 
@@ -42,7 +44,7 @@ def check(ctx, replay=None):
         open(one, "w").write(json.dumps({"doc": c["doc"], "eff": c["eff"], "eff2": c["eff2"]}) + "\n")
         run_harness(ctx, ["conf", "replay", "-in", one, "-traces", traces, "-out", ctx.path("s.json")])
         return validate(ctx, traces)
-    plan = [("sources", 2), ("tags", 2)] if ctx.tier == "quick" else [("sources", 3), ("tags", 2)]
+    plan = [("sources", 2), ("tags", 2)] if ctx.tier == "quick" else [("sources", 2), ("sources3", 3), ("tags", 2)]
     for fam, nsrc in plan:
         scn = ctx.path("c_%s.scn" % fam)
         seen = set()
@@ -76,7 +78,7 @@ def check(ctx, replay=None):
             return finish(ctx, RULE)
         if not r.ok:
             raise Inconclusive("TLC did not finish MCConf:\n" + r.out[-1500:])
-        nopts = "2" if ctx.tier == "quick" else ("3" if nsrc == 3 else "0")
+        nopts = "2" if ctx.tier == "quick" else "3"
         tr, sums = run_harness_chunks(ctx, "conf", "replay", scn, chunk=800, extra=["-opts", nopts])
         ctx.notes["replay_" + fam] = {k: sum(x[k] for x in sums) for k in ("scenarios", "cases", "diverged", "parse_errors")}
         fd = [x["first_divergences"][0] for x in sums if x.get("first_divergences")]
